@@ -1,1 +1,37 @@
-// placeholder
+//! Per-language parsers: generated text -> foreign IR.
+pub mod go;
+pub mod kotlin;
+pub mod python;
+pub mod scala;
+pub mod swift;
+pub mod ts;
+
+use crate::ir::{File, ParseStatus};
+use crate::lex::{check_balanced, lex, Lexed};
+use crate::sut::LangId;
+
+/// Parse one generated file of a brace language (not Python).
+pub fn parse_text(lang: LangId, text: &str) -> (ParseStatus, Lexed) {
+    assert!(lang != LangId::Python, "python goes through pytools/pycheck.py");
+    let l = lex(lang, text);
+    if let Some(e) = &l.error {
+        return (ParseStatus::IllFormed(format!("lexical: {e}")), l);
+    }
+    if let Err(e) = check_balanced(&l.toks) {
+        return (ParseStatus::IllFormed(format!("delimiters: {e}")), l);
+    }
+    let r: crate::lex::PResult<File> = match lang {
+        LangId::Ts => ts::parse(&l),
+        LangId::Kotlin => kotlin::parse(&l),
+        LangId::Swift => swift::parse(&l),
+        LangId::Scala => scala::parse(&l),
+        LangId::Go => go::parse(&l),
+        LangId::Python => unreachable!(),
+    };
+    let st = match r {
+        Ok(f) => ParseStatus::Parsed(f),
+        Err(f) if f.definite => ParseStatus::IllFormed(format!("syntax at byte {}: {}", f.pos, f.msg)),
+        Err(f) => ParseStatus::OutsideSubset(format!("at byte {}: {}", f.pos, f.msg)),
+    };
+    (st, l)
+}
